@@ -556,3 +556,21 @@ class _JoinImports(cst.CSTTransformer):
 
 
 _reg("import:joined-semicolon", "importnames", 0, _mk(_visit(_JoinImports)), True)
+
+
+class _CommentAbove(cst.CSTTransformer):
+    """A comment line (and a blank line) directly above every simple statement, inside its block: what a transformer that
+    removes or replaces the statement has to do something with."""
+
+    def __init__(self):
+        self.changed = False
+
+    def leave_SimpleStatementLine(self, original_node, updated_node):
+        if any(isinstance(b, (cst.Import, cst.ImportFrom)) for b in updated_node.body):
+            return updated_node
+        self.changed = True
+        extra = [cst.EmptyLine(indent=False), cst.EmptyLine(comment=cst.Comment("# note about the next statement"))]
+        return updated_node.with_changes(leading_lines=[*updated_node.leading_lines, *extra])
+
+
+_reg("layout:comment-above", "layout", 0, _mk(_visit(_CommentAbove)), True)
